@@ -37,6 +37,11 @@ THREE_TUPLES = ('blockshape', 'shape_pad', 'block_dims')
 PUBLIC_HELPERS = False    # also dissolve small public helpers that no rule names
 
 
+class _LoopBody(list):
+    """statement list that is directly the body of a loop (a `continue` in it ends the iteration)"""
+    _in_loop = True
+
+
 def _anchors():
     """private names the analyser itself refers to: never inlined."""
     here = os.path.dirname(os.path.abspath(__file__))
@@ -551,13 +556,16 @@ class ModuleNormaliser:
     def struct_block(self, body, fn):
         out = []
         i = 0
-        body = list(body)
+        in_loop = getattr(body, '_in_loop', False)
+        body = _LoopBody(body) if in_loop else list(body)
         while i < len(body):
             s = body[i]
             # recurse
             for field in ('body', 'orelse', 'finalbody'):
                 b = getattr(s, field, None)
                 if isinstance(b, list) and b and isinstance(b[0], ast.stmt) and not isinstance(s, (ast.FunctionDef, ast.ClassDef, ast.AsyncFunctionDef)):
+                    if field == 'body' and isinstance(s, (ast.For, ast.While)):
+                        b = _LoopBody(b)
                     setattr(s, field, self.struct_block(b, fn))
             if isinstance(s, ast.Try):
                 for h in s.handlers:
@@ -567,6 +575,31 @@ class ModuleNormaliser:
                     and not (len(s.orelse) == 1 and isinstance(s.orelse[0], ast.If)) and not skip('swapnot'):
                 s.test, s.body, s.orelse = s.test.operand, s.orelse, s.body
                 self.log.append(('swap-not', fn.name, s.lineno))
+            # 5b. a guard clause inside a loop body:  `if c: continue` followed by the rest of the iteration is the same as
+            #     `if not c: <rest>` (the form the rules read; the body of `struct_block` is a loop body when fn says so)
+            if isinstance(s, ast.If) and not s.orelse and len(s.body) == 1 and isinstance(s.body[0], ast.Continue) and \
+                    getattr(body, '_in_loop', False) and i + 1 < len(body) and not skip('guardcontinue'):
+                rest = body[i + 1:]
+                t = s.test
+                if isinstance(t, ast.UnaryOp) and isinstance(t.op, ast.Not):
+                    nt = t.operand
+                elif isinstance(t, ast.Compare) and len(t.ops) == 1 and isinstance(t.ops[0], (ast.NotIn, ast.In, ast.Is, ast.IsNot,
+                                                                                                  ast.Eq, ast.NotEq)):
+                    inv = {ast.NotIn: ast.In, ast.In: ast.NotIn, ast.Is: ast.IsNot, ast.IsNot: ast.Is, ast.Eq: ast.NotEq,
+                           ast.NotEq: ast.Eq}[type(t.ops[0])]
+                    nt = ast.copy_location(ast.Compare(left=t.left, ops=[inv()], comparators=t.comparators), t)
+                else:
+                    nt = ast.copy_location(ast.UnaryOp(op=ast.Not(), operand=t), t)
+                new = ast.copy_location(ast.If(test=nt, body=rest, orelse=[]), s)
+                ast.fix_missing_locations(new)
+                del body[i:]
+                body.append(new)
+                self.log.append(('guard-continue', fn.name, s.lineno))
+                nb = _LoopBody(new.body)
+                new.body = self.struct_block(nb, fn)
+                out.append(new)
+                i += 1
+                continue
             # 5. else after a block that always leaves
             if isinstance(s, ast.If) and s.orelse and _terminates(s.body) and not skip('flatten'):
                 rest = s.orelse
